@@ -32,7 +32,7 @@ static void illegal_config_probe(void)
   if (hwloc_topology_get_flags(t) != 0) hv_viol("config.illegal_flags_stored", "flags changed by a rejected set_flags(%#lx)", f);
   static const struct { hwloc_obj_type_t ty; enum hwloc_type_filter_e f; } bf[] = {
     { HWLOC_OBJ_PU, HWLOC_TYPE_FILTER_KEEP_NONE }, { HWLOC_OBJ_NUMANODE, HWLOC_TYPE_FILTER_KEEP_STRUCTURE }, { HWLOC_OBJ_MACHINE, HWLOC_TYPE_FILTER_KEEP_NONE },
-    { HWLOC_OBJ_GROUP, HWLOC_TYPE_FILTER_KEEP_ALL }, { HWLOC_OBJ_MISC, HWLOC_TYPE_FILTER_KEEP_STRUCTURE }, { HWLOC_OBJ_PCI_DEVICE, HWLOC_TYPE_FILTER_KEEP_STRUCTURE },
+    { HWLOC_OBJ_GROUP, HWLOC_TYPE_FILTER_KEEP_ALL }, { HWLOC_OBJ_GROUP, HWLOC_TYPE_FILTER_KEEP_IMPORTANT }, { HWLOC_OBJ_MISC, HWLOC_TYPE_FILTER_KEEP_STRUCTURE }, { HWLOC_OBJ_PCI_DEVICE, HWLOC_TYPE_FILTER_KEEP_STRUCTURE },
     { HWLOC_OBJ_OS_DEVICE, HWLOC_TYPE_FILTER_KEEP_STRUCTURE }, { (hwloc_obj_type_t)HWLOC_OBJ_TYPE_MAX, HWLOC_TYPE_FILTER_KEEP_ALL } };
   unsigned k = (unsigned)hv_below(&R, sizeof bf / sizeof *bf);
   enum hwloc_type_filter_e before = 0, after = 0;
